@@ -28,6 +28,18 @@ Legs of the check
      (also for one dict used with two different dimensions: the former H2 stream), the annotation of
      the response's array dimension dicts (shim_dim_dict), CubeSet inflation (rrun / rrun_state),
      augment_response (augment / a_run / a_run_state).
+
+KEYED stream (seeded change C18-12: the id shim popped the "key" marker out of the CALLER's element
+transforms, so the first cube read them as subvariable ids and every later one with the general
+cascade).  Added class: element transforms of an array (MR / CA subvariables) dimension that carry
+"key": "subvar_id" or "key": "alias" (the marker at any position of the dict), whose ids are mostly
+those the marked reading and the general cascade read DIFFERENTLY (an element id / its string / a
+position / an alias under "subvar_id", which the strict reading drops; a subvariable id that is also
+another item's alias; stale ids), on 2-D array layouts, 3-D CAT x MR x CAT / CAT x CA cubes (several
+partitions) and MR / CA-as-0th tabbooks, with ONE transforms object used by two or three Cube /
+CubeSet objects built and fully touched ONE AFTER THE OTHER (schedule "sequential").  Oracles: the
+ones of legs (a), (b), (c) - every read equals the read on pristine copies, the caller's transforms
+are deep-equal to their pristine copy, the dict each dimension uses is shim_xf of the pristine one.
 """
 import copy
 import json
@@ -212,8 +224,8 @@ def r_array(rng, k):
     return C19.gen_dim_case(rng, k)["response"]
 
 
-def r_3d(rng):
-    layout = rng.choice(["cat_mr_cat", "cat_mr_cat", "mr_cat_cat", "cat_cat_cat", "cat_ca", "cat_dt_cat"])
+def r_3d(rng, layout=None):
+    layout = layout or rng.choice(["cat_mr_cat", "cat_mr_cat", "mr_cat_cat", "cat_cat_cat", "cat_ca", "cat_dt_cat"])
     c0 = gen.make_cat(rng, "t", n_valid=rng.randint(2, 3), n_missing=rng.choice([0, 1]))
     c1 = gen.make_cat(rng, "c", n_valid=rng.randint(1, 3), n_missing=0)
     c2 = gen.make_cat(rng, "e", n_valid=rng.randint(1, 3), n_missing=rng.choice([0, 1]))
@@ -294,9 +306,9 @@ def numeric_responses(rng, n_cols):
     return out
 
 
-def tabbook_responses(rng, k):
+def tabbook_responses(rng, k, kind=None):
     """rows variable alone + rows x column variables (CAT / MR / CA-as-0th rows)."""
-    kind = rng.choice(["cat", "mr", "mr", "ca"])
+    kind = kind or rng.choice(["cat", "mr", "mr", "ca"])
     if kind == "cat":
         rowv = gen.make_cat(rng, "rowv", n_valid=rng.randint(2, 4), n_missing=rng.choice([0, 1]))
     else:
@@ -611,6 +623,97 @@ def w_diff_subtotals(rng, k):
     return world
 
 
+def keyed_elements(rng, d, mode, prefer=None):
+    """element transforms of array dimension d carrying "key": mode ("subvar_id" | "alias"): ids mostly
+    those the marked reading and the general cascade read differently; the marker at any position"""
+    n = len(d["items"])
+    marked = "svid" if mode == "subvar_id" else "alias"
+    refs = [] if prefer is None else [prefer]
+    for _ in range(rng.randint(1, 3)):
+        r = rng.random()
+        sp = U.spellings_of_item(d, rng.randrange(n)) if n else []
+        own = [x for rule, x in sp if rule == marked]
+        others = [x for rule, x in sp if rule != marked]
+        if r < 0.35 and own:
+            refs.append(own[0])
+        elif r < 0.88 and others:
+            refs.append(rng.choice(others))
+        else:
+            refs.append(rng.choice(STALE))
+    items = []
+    for x in refs:
+        if x is not None and not any(type(x) is type(y) and x == y for y, _p in items) and x != "key":
+            items.append((x, copy.deepcopy(rng.choice(PAYLOADS[:5]))))
+    items.insert(rng.randint(0, len(items)), ("key", mode))
+    return dict(items)
+
+
+def collide_alias_with_svid(rng, resp, raw_idx):
+    """give one subvariable the alias that is ANOTHER one's subvariable id (in the raw response);
+    returns that id or None"""
+    if raw_idx is None:
+        return None
+    els = resp["result"]["dimensions"][raw_idx]["type"]["elements"]
+    cand = [i for i, el in enumerate(els) if isinstance(el.get("value"), dict) and
+            isinstance(el["value"].get("id"), str) and "alias" in (el["value"].get("references") or {})
+            and "anchor" not in el["value"]["references"]]
+    if len(cand) < 2 or len(cand) != len(els):
+        return None
+    j, k = rng.sample(cand, 2)
+    svid = els[k]["value"]["id"]
+    if any(el["value"]["references"]["alias"] == svid for el in els):
+        return None
+    els[j]["value"]["references"]["alias"] = svid
+    return svid
+
+
+def w_keyed(rng, k):
+    """ONE transforms object whose array-dimension element transforms carry a "key" marker, used by
+    two or three Cube / CubeSet objects (module docstring, KEYED stream)"""
+    shape = rng.choice(["2d", "2d", "3d", "tabbook"])
+    mode = "subvar_id" if rng.random() < 0.75 else "alias"
+    tkind = None
+    if shape == "2d":
+        layout = rng.choice(["mr_x_cat", "cat_x_mr", "ca", "mr", "cat_x_ca"])
+        rs = [C19.gen_dim_case(rng, k, layout=layout, n_items=rng.randint(2, 4),
+                               plain=rng.random() < 0.5)["response"]]
+    elif shape == "3d":
+        rs = [r_3d(rng, rng.choice(["cat_mr_cat", "cat_ca"]))]
+    else:
+        tkind = rng.choice(["mr", "ca"])
+        rs, _kind = tabbook_responses(rng, k, kind=tkind)
+    collided = None
+    if shape != "tabbook" and mode == "subvar_id" and rng.random() < 0.4:
+        for key, role in dim_roles(rs[0]).items():
+            if role[0] == "array" and collided is None:
+                collided = collide_alias_with_svid(rng, rs[0], role[2])
+    roles = dim_roles(rs[0])
+    t = {}
+    for key, okey in (("rows_dimension", "columns_dimension"), ("columns_dimension", "rows_dimension")):
+        role = roles.get(key)
+        if role is None:
+            continue
+        if role[0] == "array" and role[1]["items"]:
+            t[key] = rand_dim_transforms(rng, role, roles.get(okey), rich=False) if rng.random() < 0.4 else {}
+            t[key]["elements"] = keyed_elements(rng, role[1], mode, prefer=collided)
+        elif rng.random() < 0.3:
+            t[key] = rand_dim_transforms(rng, role, roles.get(okey), rich=False)
+    world = {"responses": rs, "forms": [rand_form(rng) for _ in rs], "transforms": [t], "objects": [],
+             "scenario": "keyed-elements:%s:%s%s" % (mode, shape if tkind is None else "tabbook-" + tkind,
+                                                     "+alias=other-svid" if collided is not None else "")}
+    if shape == "tabbook":
+        ts = [0] * len(rs)
+        world["objects"].append(set_spec(rng, range(len(rs)), ts))
+        if rng.random() < 0.6:
+            world["objects"].append(set_spec(rng, range(len(rs)), ts))
+        for _ in range(rng.randint(0 if len(world["objects"]) > 1 else 1, 2)):
+            world["objects"].append(cube_spec(rng, rng.randrange(len(rs)), 0))
+    else:
+        for _ in range(rng.randint(2, 3)):
+            world["objects"].append(cube_spec(rng, 0, 0))
+    return world
+
+
 SCENARIOS = [(w_single, 31), (w_same_dims, 11), (w_tabbook, 21), (w_numeric_set, 7), (w_augment, 5),
              (lambda rng, k: w_numeric_set(rng, k, True), 5), (lambda rng, k: w_augment(rng, k, True), 4),
              (w_h2, 5), (w_shared_insertions, 5), (w_diff_subtotals, 10)]
@@ -799,6 +902,26 @@ def gen_sweep(rng, world, probes):
         if not any(op[0] == "new" and op[1] == j for op in sched):
             sched.append(["new", j])
     return sched
+
+
+def gen_sequential(rng, world, probes):
+    """the objects built ONE AFTER THE OTHER: object k is constructed, every dimension of every
+    partition of it is forced and a few more reads are made, before object k + 1 is constructed from
+    the same argument objects; finally the labels / counts of all of them once more"""
+    sched = []
+    touch = touch_ops(world, probes)
+    for k in range(len(world["objects"])):
+        sched.append(["new", k])
+        mine = [copy.deepcopy(op) for op in touch if op[1] == k]
+        sched += mine
+        for _ in range(rng.randint(0, 4)):
+            if probes[k]:
+                target, cls = rng.choice(probes[k])
+                name, args = rng.choice(E.READS[cls])
+                sched.append(["read", k, list(target), name, list(args)])
+    again = [copy.deepcopy(op) for op in touch]
+    rng.shuffle(again)
+    return sched + again
 
 
 def touch_ops(world, probes):
@@ -1237,6 +1360,9 @@ def check_world(rep, world, rng, n_reads, corr=None, do_forms=False):
     elif n_reads == "repeat":
         sched = gen_repeats(rng, world, probes)
         rep.dist("schedule=repeat")
+    elif n_reads == "sequential":
+        sched = gen_sequential(rng, world, probes)
+        rep.dist("schedule=sequential")
     else:
         sched = gen_schedule(rng, world, probes, n_reads)
         rep.dist("schedule=random")
@@ -1307,6 +1433,14 @@ def run(tier, seed):
                                                                    "exponential", "one_sided_moving_avg"]),
                                          "window": rng_r.choice([2, 3, 0])}
         check_world(rep, world, rng_r, "repeat", corr=None, do_forms=False)
+    # KEYED stream: element transforms of array dimensions with a "key" marker, ONE transforms object for
+    # two or three objects, mostly built and touched one after the other
+    rng_k = random.Random(seed + 41)
+    for k in range(70 if not thorough else 800):
+        world = w_keyed(rng_k, k)
+        rep.dist("keyed-elements-world")
+        check_world(rep, world, rng_k, rng_k.choice(["sequential", "sequential", "sequential", 12, 25, "sweep"]),
+                    corr=corr, do_forms=False)
     t_hist = time.time() - t0
     rng2 = random.Random(seed + 5)
     for k in range(n_side):
@@ -1335,7 +1469,11 @@ def run(tier, seed):
         "response reused by a Cube (former H4) 4, ONE transforms dict for two cubes with different array "
         "dimensions (former H2) 5 -, shared-insertions 5 (ONE transforms dict with subtotal insertions without / "
         "with some ids for cubes whose dimensions have different valid categories) and difference-subtotals 5 "
-        "(CAT x CAT with difference subtotals on rows / columns, population); transforms reference items in "
+        "(CAT x CAT with difference subtotals on rows / columns, population); a separate KEYED stream of 70 (thorough "
+        "800) worlds from random.Random(seed + 41): array-dimension element transforms carrying \"key\": "
+        "\"subvar_id\" (75%) / \"alias\" with ids the marked and the general reading resolve differently, one "
+        "transforms object for 2-3 cubes / CubeSets on 2-D array, 3-D CAT x MR x CAT / CAT x CA and MR / CA-as-0th "
+        "tabbook responses, half of them read with the 'sequential' schedule (objects built and touched one after the other); transforms reference items in "
         "every spelling (alias, sub-variable id, element id int/str, position) + ~20% stale + ~6% null ids in "
         "lists; response forms dict 72% / envelope 14% / text 10% / text envelope 4%; 1-3(+) objects per world "
         "constructed from the same argument objects, ~70% of them mid-schedule; 3/8 of the schedules are SWEEPS "
